@@ -50,6 +50,6 @@ def run_p(seed, tier, replay=None):
 def run(seed, tier, replay=None):
     from props import tim
     r = mix.merge(run_p(seed, tier, replay), mix.check([mix.mon_retries, mix.mon_attempt_model], seed, tier))
-    return mix.merge(r, tim.run_family("cancel", seed, tier, 7, 28))
+    return mix.merge(r, tim.run_family("cancel", seed, tier, 8, 28))
 
 KNOWN_MATCHERS = {}
